@@ -7,6 +7,7 @@ import (
 	"os"
 	"os/exec"
 	"path/filepath"
+	"runtime"
 	"strings"
 	"sync"
 	"time"
@@ -111,6 +112,10 @@ func firstLines(s string, n int) string {
 // probeReach: also run the soft per-block reachability probes
 var probeReach = true
 
+// probeInlined: probe the blocks of inlined callees too (thorough tier); the quick tier probes the blocks of
+// the function under verification itself
+var probeInlined = false
+
 type solveStats struct {
 	mu       sync.Mutex
 	bySolver map[string]int
@@ -151,7 +156,18 @@ func dischargeAll(results []*funcResult, workDir string, timeoutS int, jobs int,
 				if j.o.goal == "false" && j.o.guard == "false" {
 					r = solveOut{answer: "unsat", solver: "trivial"}
 				} else {
-					r = solvePortfolio(workDir, base, script, timeoutS, nil)
+					// stage 1: the solver that decides most of our goals fastest, alone and briefly;
+					// stage 2: the full portfolio
+					first := 3
+					if timeoutS < first {
+						first = timeoutS
+					}
+					r = solvePortfolio(workDir, base, script, first, []string{"cvc5"})
+					if r.answer != "sat" && r.answer != "unsat" {
+						r1 := r
+						r = solvePortfolio(workDir, base, script, timeoutS, []string{"z3-new", "z3", "cvc5"})
+						r.secs += r1.secs
+					}
 				}
 				j.o.solver = r.solver
 				j.o.secs = r.secs
@@ -324,4 +340,16 @@ func sexpString(v interface{}) string {
 		return "(" + strings.Join(parts, " ") + ")"
 	}
 	return ""
+}
+
+// defaultJobs: obligations solved in parallel (each runs up to three solver processes)
+func defaultJobs() int {
+	n := runtime.NumCPU() - 2
+	if n < 4 {
+		n = 4
+	}
+	if n > 14 {
+		n = 14
+	}
+	return n
 }
